@@ -217,7 +217,7 @@ def run(c):
     # ---- 2. generation -> replay ---------------------------------------------------------------------
     gens = [dict(depth=5, maxt=3, lifes="{1, 2}")]
     if thorough:
-        gens = [dict(depth=6, maxt=4, lifes="{1, 2, 3}")]
+        gens = [dict(depth=6, maxt=3, lifes="{1, 2}")]
     total = 0
     nontrivial = set()
     stats = {"steps": 0, "fwd": 0, "enc": 0, "hs": 0, "mismatch": 0}
@@ -339,6 +339,20 @@ def run(c):
             c.violation("attribution:out-delivery", "outbound delivery %s in recorded run %s step %s" % (json.dumps(d), row["run"], row["step"]), row)
     if res["forwarded"] < runs or res["encrypted"] < runs or res["blocked"] < runs:
         c.drift("recorded runs show little traffic: %s" % res)
+    # binding self-check (S6): a corrupted observation must be flagged by the trace specification
+    metal = {"ev": "meta", "keys": ["k1", "k2"], "ids": ["i1", "i2"], "addrs": ["a1"]}
+    reg1 = {"ev": "act", "o": {"kind": "register", "k": "k1", "id": "i1", "life": 2, "wasnew": True}, "auth": ["i1"]}
+    bad1 = os.path.join(c.work, "trace_corrupted_p.ndjson")
+    write_ndjson(bad1, [metal, {"ev": "reset"}, reg1, {"ev": "act", "o": {"kind": "adv", "d": 2}, "auth": []},
+                        {"ev": "act", "o": {"kind": "hs", "a": "a1", "id": "i1", "res": "accepted-new"}, "auth": []}])
+    rb = c.tlc(SD, "Trace_SnapTunnel", mode="trace", env={"TRACE": bad1}, timeout=900, expect_violation=True)
+    if "THsOnlyAuthorised" not in rb.violated:
+        c.fail_tool("oracle self-check failed: Trace_SnapTunnel accepts a handshake admitted after the lapse (%s)" % rb.violated)
+    bad2 = os.path.join(c.work, "trace_corrupted_i.ndjson")
+    write_ndjson(bad2, [metal, {"ev": "reset"}, dict(reg1, auth=[]), {"ev": "act", "o": {"kind": "purge"}, "auth": []}])
+    rb = c.tlc(SD, "Trace_SnapTunnel", mode="trace", env={"TRACE": bad2}, timeout=900)
+    if not c.printed_json(rb, "DRIFT"):
+        c.fail_tool("oracle self-check failed: Trace_SnapTunnel does not report a registration that left the identity unauthorised")
     c.cov["traces_validated_against_impl"] = res["runs"] - len(drifts)
     c.cov["evaluations"] += nrec
     c.cov["distinct_nontrivial"] += res["runs"]
